@@ -62,7 +62,7 @@ def build_labeled(mc, rp, randomize=True):
         else:
             d = DictDistribution({sl[ns]: fl(p) for ns, p in row})
         if rp.get("dist_shared"):          # equal rows hand out ONE distribution object
-            key = repr(sorted(d.items(), key=repr))
+            key = repr(list(d.items()))        # same entries in the same ORDER (support order is observable)
             d = shared_rows.setdefault(key, d)
         trans[(sl[s], al[a])] = d
     rew = {}
